@@ -130,6 +130,8 @@ fn program(rng: &mut Rng, with_labelled_only_site: bool) -> Prog {
     }
     s.push_str("* [finish] -> END\n");
     s.push_str(&bodies);
+    // a function for the host to evaluate: complete lines before, between and after two call sites
+    s.push_str("=== function hostfn(a) ===\nhostfn first\nhfa {e0(a)} end\nhostfn middle\n~ temp t = e1(a, 2)\nhfb {t} end\n~ return a + 1\n");
     // Ink fallbacks
     for (n, ar) in ARITY {
         let k = n[1..].parse::<i32>().unwrap_or(0) + 1;
@@ -166,6 +168,7 @@ struct Tally {
     host_calls: u64,
     speculative_calls: u64,
     refused_in_string: u64,
+    host_evals: u64,
 }
 
 fn run_case(c: &Compiled, prog: &Prog, mode: Mode, rng: &mut Rng, max_ops: usize) -> Result<(Tally, Vec<String>, Vec<Rec>), String> {
@@ -176,7 +179,7 @@ fn run_case(c: &Compiled, prog: &Prog, mode: Mode, rng: &mut Rng, max_ops: usize
     };
     let host = HostCfg { handler: true, fallbacks: mode != Mode::UnboundNoFallbacksAllowed, fuel: Some(20_000), seed: Some(1), bind, observe: vec![] };
     let mut p = Player::new(c.json.clone(), c.info.clone(), host)?;
-    let mut t = Tally { diff: None, marker_lines: 0, host_calls: 0, speculative_calls: 0, refused_in_string: 0 };
+    let mut t = Tally { diff: None, marker_lines: 0, host_calls: 0, speculative_calls: 0, refused_in_string: 0, host_evals: 0 };
     let mut ops: Vec<String> = Vec::new();
     macro_rules! fail {
         ($sig:expr, $detail:expr) => {{
@@ -201,6 +204,43 @@ fn run_case(c: &Compiled, prog: &Prog, mode: Mode, rng: &mut Rng, max_ops: usize
     let mut calls: Vec<(String, Vec<String>, usize)> = Vec::new(); // (name, args as shown, lines at call time)
     let mut in_kstr_pending_error = false;
     for _ in 0..max_ops {
+        if rng.chance(1, 5) {
+            // the host evaluates an ink function whose body calls externals between complete lines
+            let a = rng.below(9) as i32 + 1;
+            let r = p.apply(&Op::EvalFn("hostfn".into(), vec![crate::player::Val::Int(a)]));
+            ops.push(r.op.clone());
+            let f = |n: &str, args: &[i32]| if host_mode { host_value(n, args) } else { fallback_value(n, args) };
+            let want_text = format!("hostfn first\nhfa {} end\nhostfn middle\nhfb {} end", f("e0", &[a]), f("e1", &[a, 2]));
+            let want_res = format!("int:{} text={:?}", a + 1, format!("{want_text}\n"));
+            match &r.res {
+                Ok(got) if *got == want_res => {}
+                other => fail!(format!("host-evaluated-function/wrong-result:{mode:?}"), json!({"expected": want_res, "returned": format!("{other:?}"), "events": r.events})),
+            }
+            let ext: Vec<&String> = r.events.iter().filter(|e| e.starts_with("ext ")).collect();
+            let want_calls = [format!("ext e0(int:{a})"), format!("ext e1(int:{a},int:2)")];
+            let shown: Vec<String> = ext.iter().map(|e| e.rsplit_once(" lines=").map(|x| x.0.to_string()).unwrap_or_else(|| e.to_string())).collect();
+            match mode {
+                Mode::BoundUnsafe => {
+                    if shown != want_calls {
+                        fail!("host-evaluated-function/unsafe-external-not-called-exactly-once-in-order", json!({"expected_calls": want_calls, "host_log": shown}));
+                    }
+                }
+                Mode::BoundSafe => {
+                    // at least once each, in order (look-ahead may repeat a safe function)
+                    let mut it = shown.iter();
+                    if !want_calls.iter().all(|w| it.any(|g| g == w)) {
+                        fail!("host-evaluated-function/safe-external-not-called", json!({"expected_calls": want_calls, "host_log": shown}));
+                    }
+                }
+                _ => {
+                    if !shown.is_empty() {
+                        fail!("host-function-called-although-unbound", json!({"calls": shown}));
+                    }
+                }
+            }
+            t.host_evals += 1;
+            continue;
+        }
         if p.story.can_continue() {
             let r = p.apply(&Op::Cont);
             ops.push("Cont".into());
@@ -375,6 +415,7 @@ pub fn run(cfg: &Cfg) -> i32 {
                         rep.count_n(&format!("host-calls:{mode:?}"), t.host_calls);
                         rep.count_n("speculative-calls-in-safe-mode(observed, allowed)", t.speculative_calls);
                         rep.count_n("unsafe-calls-in-strings-refused", t.refused_in_string);
+                        rep.count_n("host-evaluated-functions-with-external-calls", t.host_evals);
                         if let Some((sig, detail)) = t.diff {
                             rep.violation(
                                 &format!("externals/{sig}"),
